@@ -201,6 +201,7 @@ class ManagedBSE:
         elif kind == 'is_closed':
             s.set_op(st, t, a, 'simple'); s.M.push_mir(st, th, W.F('::is_closed'), [Ref(proot)])
         elif kind == 'resize':
+            s.note_resize(st, a[1])
             st.gset('resizes', st.gget('resizes', ()) + (a[1],))
             s.set_op(st, t, a, 'simple'); s.M.push_mir(st, th, W.F('::resize'), [Ref(proot), I(a[1])])
         elif kind == 'close':
@@ -293,6 +294,21 @@ class ManagedBSE:
 
     def note_return(s, st, oid): pass
 
+    def cur_max(s, st):
+        if st.gget('closed_ret'): return I(0)
+        r = st.gget('resizes')
+        return I(r[-1]) if r else st.gget('max_size')
+
+    def note_resize(s, st, n):
+        """classify the resize against ground truth (roles of the known C07 findings)"""
+        if st.gget('closed_ret'): return
+        cm = s.cur_max(st); live = len(s.live_ids(st)); fl = st.gget('flags', ())
+        if s.M.feasible(st, z(binop('Lt', I(n), cm))):
+            if s.M.feasible(st, z(binop('Lt', I(live), cm))) and 'shrink_unused' not in fl: fl = fl + ('shrink_unused',)
+        if s.M.feasible(st, z(binop('Gt', I(n), cm))):
+            if s.M.feasible(st, z(binop('Gt', I(live), cm))) and 'grow_with_surplus' not in fl: fl = fl + ('grow_with_surplus',)
+        st.gset('flags', fl)
+
     def snapshot(s, st):
         """ground truth + real status() (on a scratch copy) for the single-task differential of C03"""
         sc = st.clone()
@@ -382,8 +398,7 @@ class ManagedBSE:
             live = len(s.live_ids(st))
             if s.M.feasible(st, z(binop('Gt', I(live), ms))):
                 out.append(s.vio('C01', f'{live} live objects exceed max_size', st))
-            if 'create_over_limit' in st.gget('flags', ()):
-                out.append(s.vio('C01', 'Manager::create called while max_size objects are alive', st))
+        out.extend(v for v in st.gget('pending_vio', ()) if v['property'] in O)
         return out
 
     def check_state(s, st):
@@ -403,7 +418,30 @@ class ManagedBSE:
         if out and any(not v.get('known') for v in out): return out
         if 'C11' in O: out.extend(s.check_status(st))
         if out: return out
-        if 'C02' in O and s.cfg['probe']: out.extend(s.probe(st))
+        if 'C02' in O and s.cfg['probe'] and not busy: out.extend(s.probe(st))
+        if 'C07' in O and st.gget('resizes') and not st.gget('closed_ret') and not busy:
+            out.extend(s.check_resized(st))
+        return out
+
+    def c07_known(s, st, d):
+        fl = st.gget('flags', ())
+        if 'shrink_unused' in fl: d['known'] = 'K-C07a'
+        elif 'grow_with_surplus' in fl: d['known'] = 'K-C07b'
+        return d
+
+    def check_resized(s, st):
+        out = []
+        n = st.gget('resizes')[-1]
+        sc = st.clone(); r = s.W.status(sc, 'S', sc.gget('pool'))
+        S = r[0][1][1]
+        if s.M.feasible(sc, z(binop('Ne', S.f[0], I(n)))):
+            out.append(s.vio('C07', f'status().max_size is {S.f[0]!r} after resize({n})', st)); return out
+        out_n = sum(len(st.threads[t].local['objs']) for t in s.tasks)
+        # admission: objects handed out by get() calls that started after the last resize returned
+        if s.cfg['probe'] and not any('fut' in st.threads[t].local for t in s.tasks):
+            for v in s.capacity_probe(st, I(n), 'C07'):
+                v['what'] = f'after resize({n}) ' + v['what']
+                out.append(s.c07_known(st, v))
         return out
 
     # status(): exact at rest, plausible otherwise  (run on a scratch copy, the real status() MIR)
@@ -523,7 +561,7 @@ class ManagedBSE:
                         else: final.append((y, res))
                 cur = nxt
                 if not cur: break
-            def steps(y): return [list(map(str, e)) for e in y.log[n0:] if e[0] in ('act', 'env')]
+            def steps(y): return [['probe']] + [list(map(str, e)) for e in y.log[n0:] if e[0] in ('act', 'env')]
             from .replay import split_actions
             for y in cur:
                 out.append(dict(s.vio(prop, 'the capacity probe obtained more objects concurrently than the bound allows', st), probe_log=steps(y)))
@@ -584,7 +622,14 @@ def _digest(s, st0, a, st):
         if k == 'create_call':
             if idleq and not thread_mode:
                 vio('C08', 'Manager::create called although an idle object was available')
-            live = len([o for o, r in objs.items() if r['destroyed'] == 0 and r['handed'] == 0])
+            # objects alive at the moment of the call (those created later in this action do not count)
+            later = set()
+            for e2 in ev[ev.index(e):]:
+                if e2[0] == 'created': later.add(e2[1])
+            died = [e2[1] for e2 in ev[ev.index(e):] if e2[0] == 'destroy']
+            live = len([o for o, r in objs.items() if o not in later and ((r['destroyed'] == 0 and r['handed'] == 0) or o in died)])
+            if not st.gget('resizes') and not st.gget('close_started') and s.M.feasible(st, z(binop('Ge', I(live), st.gget('max_size')))):
+                vio('C01', f'Manager::create called while {live} objects are alive (max_size reached)')
         elif k == 'created':
             trail[e[1]] = (('create', 0, 'ok'),); touch(e[1])
         elif k == 'hook_call':
@@ -632,6 +677,11 @@ def _digest(s, st0, a, st):
             trail[handed] = ()
             if cur['after_close']:
                 vio('C06', 'get() issued after close() returned yielded an object')
+            rz = st.gget('resizes', ())
+            if rz and cur['after_resize'] == len(rz) and not st.gget('closed_ret'):
+                live = len([o for o, r in objs.items() if r['destroyed'] == 0 and r['handed'] == 0])
+                if live > rz[-1]:
+                    V.append(s.c07_known(st, s.vio('C07', f'a get() admitted after resize({rz[-1]}) returned raised the number of live objects to {live}', st)))
             _check_handout_metrics(s, st, shadow, objs, handed, last, vio)
         for oid in cur['inhand']:
             if oid == handed: continue
@@ -641,6 +691,13 @@ def _digest(s, st0, a, st):
                     f'object {oid} was taken in hand by a get() that ended ({res}) without handing it out, but it was destroyed {r["destroyed"]}x and detached {r["detached"]}x (expected exactly once each)')
         if res[0] == 'err':
             _check_error(s, st, ev, cur, res[1], vio)
+        if not s.cfg['runtime'] and res[0] in ('ok', 'err'):
+            tv = cur['tv'] if cur['tv'] is not None else s.cfg['pool_timeouts']
+            touched_idle = any(e[0] == 'recycle_call' or (e[0] == 'hook_call' and e[1] != 'post_create') for e in ev)
+            if tv[2] == 'pos' and touched_idle and res[:2] != ('err', 'NoRuntimeSpecified'):
+                V.append(dict(s.vio('C10', 'a per-call recycle timeout without a runtime does not yield NoRuntimeSpecified: the idle object is silently discarded', st), known='K-C10'))
+            if tv[0] == 'pos' and res[:2] != ('err', 'NoRuntimeSpecified') and res[:2] != ('err', 'Closed'):
+                vio('C10', f'a non-zero wait timeout without a runtime yields {res} instead of NoRuntimeSpecified')
         if res[0] in ('cancelled', 'panic') or (res[0] == 'err' and res[1].startswith('Timeout')):
             _check_abandon(s, st, cur, res, vio)
         calls.pop(actor, None)
@@ -648,8 +705,8 @@ def _digest(s, st0, a, st):
         tv = cur['tv'] if cur['tv'] is not None else s.cfg['pool_timeouts']
         if tv[0] == 'zero' and s.queued_for(st, actor):
             vio('C10', 'get() with a zero wait timeout is waiting for a slot')
-    if a[0] not in ('get', 'poll', 'cancel'):
-        for o in calls: calls[o] = dict(calls[o], clean=False)
+    for o in calls:
+        if not (o == actor and a[0] in ('get', 'poll', 'cancel')) and calls[o]['clean']: calls[o] = dict(calls[o], clean=False)
     # ---- object returned
     if a[0] == 'drop' and res and res[0] == 'ok' and done:
         oid = last['oid']; r = objs[oid]
@@ -667,9 +724,13 @@ def _digest(s, st0, a, st):
         for oid in rm:
             if objs[oid]['detached'] != 1: vio('C09', f'object {oid} removed by retain() was detached {objs[oid]["detached"]} times')
     # ---- detach bookkeeping (every object the pool let go of while alive is detached exactly once, none that stays)
+    busy_oids = set()
+    for tn, th_ in st.threads.items():
+        op_ = th_.local.get('op') if th_.local else None
+        if op_ and op_[2].get('oid'): busy_oids.add(op_[2]['oid'])
     for oid, r in objs.items():
         gone = r['destroyed'] > 0 or r['handed'] > 0
-        inflight = any(oid in c['inhand'] for c in calls.values())
+        inflight = any(oid in c['inhand'] for c in calls.values()) or oid in busy_oids
         if not gone and r['detached'] > 0 and not inflight:
             vio('C09', f'object {oid} is still in the pool but was detached')
         if gone and r['detached'] != 1 and not inflight:
@@ -767,6 +828,8 @@ def _check_abandon(s, st, cur, res, vio):
     def ne(x, y): return s.M.feasible(st, z(binop('Ne', x, y)))
     if ne(s0['permits'], s1['permits']) or s0['queue'] != s1['queue'] or s0['assigned'] != s1['assigned']:
         vio('C03', f'abandoned get() ({res}) left a slot reserved or a waiter behind: permits {s0["permits"]!r}->{s1["permits"]!r}, waiters {s0["queue"]}->{s1["queue"]}')
+    if any(('fut' in th.local or th.stack) for tn, th in st.threads.items() if tn in s.tasks):
+        return      # status() is only plausible, not exact, while other calls are in progress (C11): ground truth compared above
     a0, a1 = s0['status'], s1['status']
     if a0 is None or a1 is None: vio('C03', 'status() unavailable around an abandoned get()'); return
     if ne(a0[0], a1[0]) or ne(a0[3], a1[3]): vio('C03', f'status() max_size/waiting changed by an abandoned get(): {a0} -> {a1}')
